@@ -150,7 +150,7 @@ def run(ctx):
             for fam in oc.FAMILIES:
                 gs.append(ex.submit(ctx.mc, "mc/MC_OpenAPIOps", consts={"OFamily": '"%s"' % fam}, label="MC " + fam, workers=3))
             # larger bounds: two services / two methods per service where the levels interact
-            for fam, nsvc, nmeth in (("sec", 2, 1), ("sec", 1, 2), ("paths", 2, 2), ("files", 2, 1), ("resps", 1, 2), ("verbs", 1, 2)):
+            for fam, nsvc, nmeth in (("params", 1, 2), ("sec", 2, 1), ("sec", 1, 2), ("paths", 2, 2), ("files", 2, 1), ("resps", 1, 2), ("verbs", 1, 2)):
                 gs.append(ex.submit(ctx.mc, "mc/MC_OpenAPIOps", consts={"OFamily": '"%s"' % fam, "NSvc": nsvc, "NMeth": nmeth},
                                     label="MC %s %dx%d" % (fam, nsvc, nmeth), timeout=1500, workers=4))
         for g in gs:
@@ -164,7 +164,7 @@ def run(ctx):
         small = [d for d in small if rnd.random() < frac]
     designs = og.pack(small)
     # (J) random larger designs
-    nrand = 6 if quick else 45
+    nrand = 6 if quick else 120
     rand = []
     for nsvc, nmeth in ((2, 2), (3, 1), (1, 3)):
         rand += oc.enumerate_designs(ctx, "mix", nsvc, nmeth, simulate=nrand // 3, depth=60)
